@@ -1,24 +1,154 @@
 import GoaktVerif.Driver.Conc
+import GoaktVerif.Model.C04.Core
 import GoaktVerif.Model.C04.Unbounded
+import GoaktVerif.Model.C04.Intake
+import GoaktVerif.Model.C04.Locked
+import GoaktVerif.Model.C04.Ring
+import GoaktVerif.Model.C04.Segmented
+import GoaktVerif.Model.C04.Fair
+import GoaktVerif.Model.C04.Bounded
+import GoaktVerif.Spec.C04
 
 namespace GoaktVerif.Driver.C04
-open GoaktVerif.Driver
+open GoaktVerif.Driver GoaktVerif.Model.C04
 
-def unbounded : Machine where
-  Cfg := Model.C04.Unbounded.Cfg
-  init := fun _ progs => some (Model.C04.Unbounded.init progs)
+/-- wrap a mailbox algorithm as a schedule-replay machine -/
+def machineOf (A : Algo) (sh0 : A.Sh) : Machine where
+  Cfg := Cfg A
+  init := fun _ progs => (parseProgs progs).map (initCfg A sh0)
   nthreads := fun c => c.threads.length
-  done := Model.C04.Unbounded.done
-  step := Model.C04.Unbounded.step
-  results := fun c => c.threads.map fun t => t.results.reverse
-  final := Model.C04.Unbounded.final
+  done := isDone
+  step := fun c tid => (stepLabel c tid, stepCfg c tid)
+  results := fun c => c.threads.map fun t =>
+    t.hist.reverse.map fun d => s!"{d.res.toString}@{d.inv}-{d.ret}"
+  final := fun c => finalDigest A c.sh
 
-def model (line : String) : String :=
-  match (line.splitOn "|").head?.map (fun s => s.trimAscii.toString) with
-  | some "unbounded" => runConc unbounded line
+def capOk (c : Nat) : Bool := 1 ≤ c && c ≤ 65536
+
+def machineFor (cfg : List String) : Option Machine :=
+  match cfg with
+  | ["unbounded"] => some (machineOf Unbounded.algo Unbounded.init)
+  | ["segmented", n] => n.toNat?.bind fun n => if capOk n then some (machineOf Segmented.algo (Segmented.init n)) else none
+  | ["fair"] => some (machineOf Fair.algo Fair.init)
+  | ["uprio", pf] => (Heap.prioOf pf).map fun lt => machineOf (Locked.algo lt) Locked.init
+  | ["usprio", pf] => (Heap.prioOf pf).map fun lt => machineOf (Intake.algo { cap := none, stable := true, lt }) Intake.init
+  | ["bprio", c, pf] =>
+    match c.toNat?, Heap.prioOf pf with
+    | some c, some lt => if capOk c then some (machineOf (Intake.algo { cap := some c, stable := false, lt }) Intake.init) else none
+    | _, _ => none
+  | ["bsprio", c, pf] =>
+    match c.toNat?, Heap.prioOf pf with
+    | some c, some lt => if capOk c then some (machineOf (Intake.algo { cap := some c, stable := true, lt }) Intake.init) else none
+    | _, _ => none
+  | ["ring", c] => c.toNat?.bind fun c => if capOk c then some (machineOf Ring.algo (Ring.init c)) else none
+  | _ => none
+
+/-- the black-box BoundedMailbox: one sequential program -/
+def runBounded (cap : Nat) (line : String) : String :=
+  match line.splitOn "|" with
+  | [_, prog, _] =>
+    match (words prog).mapM parseOp with
+    | none => "bad-case"
+    | some ops =>
+      match Bounded.runOps (Bounded.init cap) ops [] with
+      | none => "stuck"
+      | some (s, rs) =>
+        let fin := (" ".intercalate (s.q.map toString) ++ " # 0").trimAscii.toString
+        "T | R " ++ ",".intercalate (rs.map Res.toString) ++ " | F " ++ fin
   | _ => "bad-case"
 
-def judge (_ : String) : String := "ok"
+def model (line : String) : String :=
+  match (line.splitOn "|").head?.map words with
+  | some ["bounded", c] =>
+    match c.toNat? with
+    | some c => if capOk c then runBounded c line else "bad-case"
+    | none => "bad-case"
+  | some cfg =>
+    match machineFor cfg with
+    | some M => runConc M line
+    | none => "bad-case"
+  | none => "bad-case"
+
+/-! ### judge: the Spec oracle evaluated on the implementation's output -/
+
+open GoaktVerif.Spec.C04 in
+def setupFor (cfg : List String) : Option Setup :=
+  match cfg with
+  | ["unbounded"] => some { fifo := true }
+  | ["segmented", _] => some { fifo := true }
+  | ["fair"] => some { perKey := true }
+  | ["uprio", pf] => (Heap.prioOf pf).map fun lt => { prio := some lt }
+  | ["usprio", pf] => (Heap.prioOf pf).map fun lt => { prio := some lt, stable := true }
+  | ["bprio", c, pf] => match c.toNat?, Heap.prioOf pf with
+    | some c, some lt => some { prio := some lt, cap := some c }
+    | _, _ => none
+  | ["bsprio", c, pf] => match c.toNat?, Heap.prioOf pf with
+    | some c, some lt => some { prio := some lt, stable := true, cap := some c }
+    | _, _ => none
+  | ["ring", c] => c.toNat?.map fun c => { fifo := true, cap := some (Ring.nextPow2 c) }
+  | ["bounded", c] => c.toNat?.map fun c => { fifo := true, cap := some (Bounded.roundUp c) }
+  | _ => none
+
+def parseRes (op : Op) (s : String) : Option Res :=
+  match op with
+  | .enq _ _ => if s = "ok" then some .ok else if s = "full" then some .full else none
+  | .deq => if s = "nil" then some .none else s.toNat?.map .val
+  | .emp => if s = "true" then some (.bool true) else if s = "false" then some (.bool false) else none
+  | .len => s.toInt?.map .num
+
+/-- `res@inv-ret`; sequential black-box runs carry no stamps and get consecutive ones from `seq` -/
+def parseDone (op : Op) (s : String) (seq : Nat) : Option Done :=
+  match s.splitOn "@" with
+  | [r] => (parseRes op r).map fun res => { op, res, inv := 2 * seq + 1, ret := 2 * seq + 2 }
+  | [r, st] =>
+    match st.splitOn "-" with
+    | [a, b] =>
+      match parseRes op r, a.toNat?, b.toNat? with
+      | some res, some inv, some ret => some { op, res, inv, ret }
+      | _, _, _ => none
+    | _ => none
+  | _ => none
+
+def parseThread : List Op → List String → Nat → Option (List Done)
+  | [], [], _ => some []
+  | op :: ops, r :: rs, k => do
+    let d ← parseDone op r k
+    let rest ← parseThread ops rs (k + 1)
+    pure (d :: rest)
+  | _, _, _ => none
+
+def parseHistory (progs : List (List Op)) (r f : String) : Option Spec.C04.History := do
+  let rs := (r.splitOn ";").map fun t => (t.trimAscii.toString.splitOn ",").filter (· ≠ "")
+  if rs.length ≠ progs.length then none
+  let ds ← (progs.zip rs).mapM fun (p, r) => parseThread p r 0
+  match f.splitOn "#" with
+  | [ids, l] =>
+    let drained ← nats? (words ids)
+    let finalLen ← l.trimAscii.toString.toInt?
+    pure { ops := ds.flatten, drained, finalLen }
+  | _ => none
+
+def judge (line : String) : String :=
+  let (case, out) := splitTab line
+  match case.splitOn "|" with
+  | [cfg, progs, _] =>
+    match setupFor (words cfg), parseProgs ((progs.splitOn ";").map words) with
+    | some su, some ps =>
+      -- output:  T … | R … | F …
+      match out.splitOn " | R " with
+      | [_, rest] =>
+        match rest.splitOn " | F" with
+        | [r, f] =>
+          match parseHistory ps r f with
+          | some h =>
+            match Spec.C04.verdict su h with
+            | none => "ok"
+            | some v => "bad " ++ v
+          | none => "bad unparsable-history"
+        | _ => "bad unparsable-output"
+      | _ => "bad unparsable-output"
+    | _, _ => "bad-case"
+  | _ => "bad-case"
 
 def run (args : List String) : IO UInt32 := runWith args model judge
 
